@@ -1216,6 +1216,115 @@ Section WalletProofs.
     destruct newaccount_uses_wallet_scrypt, changepassword_uses_wallet_scrypt, getaccount_uses_wallet_scrypt; auto.
   Qed.
 
+  (** *** several wallets open in one process *)
+  Notation mstep := (mstep key blob enc dec).
+  Notation mrun := (mrun key blob enc dec).
+  Notation mcaller_ok := (mcaller_ok key blob enc dec).
+  Definition wparams (wg : wallet * ghost key) : scrypt := w_params blob (fst wg).
+
+  Lemma add_params : forall w x, w_params blob (fst (add_account_data w x)) = w_params blob w.
+  Proof.
+    intros w x. unfold Wallet.add_account_data.
+    repeat match goal with |- context[if ?c then _ else _] => destruct c end; reflexivity.
+  Qed.
+
+  (** no operation changes the wallet's scrypt parameters *)
+  Lemma step_params : forall w o, w_params blob (fst (step w o)) = w_params blob w.
+  Proof.
+    intros w o. destruct o; cbn [Wallet.step].
+    - unfold Wallet.new_account. destruct (String.eqb pwd ""); [reflexivity|].
+      match goal with |- context[add_account_data w ?x] => pose proof (add_params w x) as P; destruct (add_account_data w x) as [w' r] end.
+      destruct r; exact P.
+    - unfold Wallet.import_account. apply add_params.
+    - unfold Wallet.delete_account.
+      repeat match goal with |- context[match ?x with _ => _ end] => destruct x eqn:? end; reflexivity.
+    - unfold Wallet.set_default_account.
+      repeat match goal with |- context[match ?x with _ => _ end] => destruct x eqn:? end; reflexivity.
+    - unfold Wallet.set_label.
+      repeat match goal with |- context[match ?x with _ => _ end] => destruct x eqn:? end; reflexivity.
+    - unfold Wallet.change_password.
+      repeat match goal with |- context[match ?x with _ => _ end] => destruct x eqn:? end; reflexivity.
+    - unfold Wallet.change_sig_scheme.
+      repeat match goal with |- context[match ?x with _ => _ end] => destruct x eqn:? end; reflexivity.
+    - apply params_reload.
+  Qed.
+
+  Lemma nth_set_nth : forall {A} (l : list A) i x j, j <> i -> nth_error (set_nth l i x) j = nth_error l j.
+  Proof.
+    induction l as [|y r IH]; intros i x j Hne; [reflexivity|].
+    destruct i, j; simpl; try reflexivity; [congruence|]. apply IH. congruence.
+  Qed.
+
+  Lemma Forall_set_nth : forall {A} (P : A -> Prop) (l : list A) i x, Forall P l -> P x -> Forall P (set_nth l i x).
+  Proof.
+    induction l as [|y r IH]; intros i x Hl Hx; [constructor|]. inversion Hl; subst.
+    destruct i; simpl; constructor; auto.
+  Qed.
+
+  Lemma map_set_nth : forall {A B} (f : A -> B) (l : list A) i x y, nth_error l i = Some y -> f x = f y ->
+    map f (set_nth l i x) = map f l.
+  Proof.
+    induction l as [|z r IH]; intros i x y Hn Hf; [reflexivity|].
+    destruct i; simpl in *.
+    - inversion Hn; subst. congruence.
+    - f_equal. eapply IH; eauto.
+  Qed.
+
+  (** FRAME: an operation on wallet [i] leaves every other open wallet (client state and
+      specification state) exactly as it was; opening another wallet file leaves all open wallets
+      as they were. *)
+  Theorem mstep_frame : forall s m j,
+    match m with MOp _ i _ => j <> i | MOpen _ _ => j < List.length s end ->
+    nth_error (fst (mstep s m)) j = nth_error s j.
+  Proof.
+    intros s m j H. destruct m as [prm|i o]; cbn [Wallet.mstep fst].
+    - apply nth_error_app1. assumption.
+    - destruct (nth_error s i) as [[w g]|]; [|reflexivity].
+      destruct (step w o) as [w' e]. cbn [fst]. apply nth_set_nth. assumption.
+  Qed.
+
+  Definition sys_ok (s : system key blob) : Prop := Forall (fun wg => Inv (fst wg) /\ Keyed (fst wg) (snd wg)) s.
+
+  Lemma mstep_ok : forall s m, sys_ok s -> mop_caller_ok key blob s m ->
+    sys_ok (fst (mstep s m)) /\
+    map wparams (fst (mstep s m)) = (map wparams s ++ match m with MOpen _ prm => [prm] | MOp _ _ _ => [] end)%list.
+  Proof.
+    intros s m Hs C. destruct m as [prm|i o]; cbn [Wallet.mstep fst mop_caller_ok] in *.
+    - split.
+      + apply Forall_app. split; [assumption|]. constructor; [|constructor]. split; [apply init_inv|apply init_keyed].
+      + rewrite map_app. reflexivity.
+    - rewrite app_nil_r. destruct (nth_error s i) as [[w g]|] eqn:En; [|split; [assumption|reflexivity]].
+      assert (Hw : Inv w /\ Keyed w g).
+      { unfold sys_ok in Hs. rewrite Forall_forall in Hs. apply (Hs (w, g)). eapply nth_error_In; eauto. }
+      destruct Hw as [I K].
+      pose proof (step_inv w o I) as I1. pose proof (step_keyed w g o I K C) as K1. pose proof (step_params w o) as P1.
+      destruct (step w o) as [w' e]. cbn [fst snd] in *. split.
+      + apply Forall_set_nth; [assumption|]. split; assumption.
+      + eapply map_set_nth; eauto.
+  Qed.
+
+  Lemma mrun_ok : forall ms s, sys_ok s -> mcaller_ok s ms ->
+    sys_ok (fst (mrun s ms)) /\ map wparams (fst (mrun s ms)) = (map wparams s ++ opened key ms)%list.
+  Proof.
+    induction ms as [|m r IH]; intros s Hs C; simpl.
+    - split; [assumption|]. rewrite app_nil_r. reflexivity.
+    - destruct C as [Cm Cr]. destruct (mstep_ok s m Hs Cm) as [Hs1 Hp1].
+      destruct (mstep s m) as [s1 e] eqn:Em. cbn [fst] in *.
+      destruct (IH s1 Hs1 Cr) as [Hs2 Hp2]. destruct (mrun s1 r) as [s2 es]. cbn [fst] in *.
+      split; [assumption|]. rewrite Hp2, Hp1, <- app_assoc. f_equal. destruct m; reflexivity.
+  Qed.
+
+  (** Every open wallet, whatever was done to the others in between: it still has the parameters
+      it was opened with, and it has the property. *)
+  Theorem system_persists : forall ms, mcaller_ok [] ms ->
+    map wparams (fst (mrun [] ms)) = opened key ms /\
+    Forall (fun wg => wallet_property key blob dec (fst wg) (snd wg)) (fst (mrun [] ms)).
+  Proof.
+    intros ms C. destruct (mrun_ok ms [] (Forall_nil _) C) as [Hs Hp]. split; [exact Hp|].
+    unfold sys_ok in Hs. rewrite Forall_forall in *. intros wg Hin. destruct (Hs wg Hin) as [I K].
+    apply property_from_invariants; assumption.
+  Qed.
+
 End WalletProofs.
 
 (** ** the executable cipher instance is ideal *)
